@@ -20,10 +20,10 @@ ASSUMPTIONS = ['unit step slices (the property excludes other steps)']
 
 
 def check(ctx):
-    dataset.check_slice_apply(ctx)
-    dataset.check_slice_sign(ctx)
-    dataset.check_squeeze(ctx)
-    dataset.check_ds_pure(ctx)
+    ctx.run(dataset.check_slice_apply)
+    ctx.run(dataset.check_slice_sign)
+    ctx.run(dataset.check_squeeze)
+    ctx.run(dataset.check_ds_pure)
 
 
 def variants(program):
